@@ -45,6 +45,10 @@ CHECKS = {
    text="TLC checks Registry.tla (a list built under one lock is a snapshot of some instant inside the call; order bookkeeping) and finds the torn list of a two-read design; recorded invoke/return histories of randomized concurrent workloads on a real server (register / re-register / unregister / list / call, results carrying the handler version) are checked for linearizability by TLC (TraceRegistry, one silent Linearize step per operation; resources in registration order); in addition the schedules on which the two-read model itself returns a non-snapshot are forced on the real list code through a hook gate inside the list loops; a crash storm (tight re-registration against tight readers) runs in a child process.",
    note="Trusted: TLC, the mutex-ordered history log (real-time precedence only). Atomicity windows without an instrumentation point (e.g. a handler replaced in two steps) are only reached probabilistically by the stress workloads. A static lockset claim is not decided.",
    technique="TLA+ model checking (TLC) + linearizability checking of recorded histories in TLA+ + gate-forced schedules + crash storm"),
+ "C01": dict(level="model_checking", design="DESIGN.md §5 C01",
+   text="TLC checks Correlation.tla (issue, handler, bounded outgoing queue, writer, client dispatch through the pending table, return) for OwnAnswer, HandlerOnce, PendingExact, NothingLost and the liveness property EveryCallReturns, and finds the id-format and the queue-drop defects; call/handler/return logs of concurrent library-client workloads on Streamable JSON / SSE / stateless / sessions-disabled, legacy SSE and stdio (child process) - also with request counters at 10^6-1, 2^31-1, 2^53-3 - are validated by TLC (TraceCorrelation); raw peers replay an id-class table against all six server modes (echoed id as a JSON value, exactly one answer frame per request, incl. 300 KB answers); a legacy stream reader is stalled while 180 x 256 KiB answers are produced.",
+   note="Trusted: TLC, the mutex-ordered log, the child-process handler log for stdio (its entries are placed after their call; only their number is used). 'Any number of callers' is explored up to 4 clients x 6 goroutines.",
+   technique="TLA+ model checking (TLC, incl. liveness) + TLC trace validation of recorded workloads + raw-peer id-table replay"),
 }
 NA = {
  "C20": "data-race freedom is a statement about individual memory accesses under the Go memory model; an abstract state-machine specification has no notion of them (see DESIGN.md §6)",
